@@ -91,7 +91,8 @@ def Src.rows (env : Env) : Src → Except IErr (List (List Int))
   | .range lo hi inc => do
     let l ← lo.eval env
     let h ← hi.eval env
-    pure ((rangeVals l h inc).map (fun i => [i]))
+    if rangeTooLarge l h inc then .error .overflow     -- TooLarge
+    else pure ((rangeVals l h inc).map (fun i => [i]))
   | .arr xs => .ok (xs.map (fun x => [x]))
   | .enumArr xs => .ok ((enumerate xs).map (fun p => [p.1, (p.2 : Int)]))
   | .zip2 xs ys => .ok (zip [xs, ys])
